@@ -177,6 +177,7 @@ def delete_helpers(ctx, rule):
                 if name == "join_runs":
                     # the later of two equal runs is dropped: mask index + 1
                     plus = any(x.k == "bin" and x.a[0] == "+" and is_const(x.a[2], 1) for x in alts(m))
-                    ctx.decide(rule, f, "join_runs drops the second of two equal neighbours (boundary between them)", True if plus else False,
+                    bare = all(np_call(x, {"flatnonzero"}) is not None and x.a[1] and x.a[1][0].k == "cmp" for x in alts(m))
+                    ctx.decide(rule, f, "join_runs drops the second of two equal neighbours (boundary between them)", True if plus else (False if bare else None),
                                "the first run's start boundary is deleted instead of the boundary between the runs", node=r.ast, key="plus-one", engine="E5")
             ctx.decide(rule, f, "%s deletes the same positions from boundaries and values, in (events, values) order" % name, ok, node=r.ast, key="co-delete", engine="E6")
